@@ -287,7 +287,7 @@ def addAll? : Dist → List Nat → Option Dist
   | d, [] => some d
   | d, m :: ms => (add? d m).bind fun d' => addAll? d' ms
 
-theorem addAll?_foldl (d d' : Dist) (mids : List Nat) (h : addAll? d mids = some d') : d' = mids.foldl Dist.add d := by
+theorem c14_t_addAll_foldl (d d' : Dist) (mids : List Nat) (h : addAll? d mids = some d') : d' = mids.foldl Dist.add d := by
   induction mids generalizing d with
   | nil => simp [addAll?] at h; exact h.symm
   | cons m ms ih =>
@@ -317,7 +317,7 @@ private theorem plain_add (d : Dist) (h : Plain d) (m : Nat) (d1 : Dist) (ha : a
 
 /-- the loop of `Info.BuildDistribution` (`for _, id := range ids { s.Distribution.Add(id.MID) }`) on a plain
 distribution = the model's `Dist.add?` per MID, in order (hence `mids.foldl Dist.add d` when no `Add` panics:
-`addAll?_foldl`, `FracInfo.buildDistribution`) -/
+`c14_t_addAll_foldl`, `FracInfo.buildDistribution`) -/
 theorem c14_t_buildLoop (mids : List Nat) :
     ∀ (d : Dist), Plain d →
       T.buildLoop (ints d.mask.bin) mids d.dfrom d.dto d.bucket d.mask.size (fun m => (m : Int))
